@@ -12,29 +12,41 @@
  *     element, variant content, struct/dict-entry content), 5 the call in _dbus_validate_body_with_reason (outside
  *     this unit).  If a change adds or removes an occurrence the unit no longer compiles (undecided, never a wrong
  *     binding);
- *   - the DBusTypeReader functions, the three string validators and _dbus_warn_return_if_fail are contract stubs
- *     (stubs/c01p_stubs.c, --replace-calls); _dbus_type_get_alignment, dbus_type_is_valid, dbus_type_is_fixed,
- *     _dbus_unpack_uint32, _dbus_string_init_const_len, _dbus_string_get_length, _dbus_first_type_in_signature
- *     (+ _dbus_string_get_byte, map_type_char_to_type) are the REAL loop-free code, inlined, with their own
- *     _dbus_asserts as obligations.
+ *   - the DBusTypeReader functions, the three string validators, the constant-string API (_dbus_string_init_const_len,
+ *     _dbus_string_get_length, _dbus_first_type_in_signature), _dbus_unpack_uint32 and _dbus_warn_return_if_fail are
+ *     contract stubs (stubs/c01p_stubs.c, --replace-calls; their own _dbus_asserts are the stubs' preconditions);
+ *     _dbus_type_get_alignment, dbus_type_is_valid, dbus_type_is_fixed are the REAL loop-free code, inlined.
  *
- * What is readable: ONE heap object of exactly off + len bytes; p = object + off, end = p + len, 0 <= off, len and
- * len <= _DBUS_STRING_MAX_LENGTH (2^31 - 9; the 128 MiB message limit is far inside).  `end` is the one-past-the-end
- * pointer of the object: NOT A SINGLE BYTE at or after `end` is readable, so the DBusString allocation padding
- * (len + 8) the real caller provides is NOT assumed; any read at or beyond `end` fails a CBMC pointer check.
- * p starts at an arbitrary offset, so every alignment residue of p is covered (CBMC encodes a pointer as
- * object-id . offset; _DBUS_ALIGN_ADDRESS therefore aligns the offset, i.e. the object base counts as 8-aligned,
- * which is what malloc and the DBusString representation guarantee).
+ * What is readable / addressable: ONE heap object of exactly off + len + VERIF_TAIL bytes (VERIF_TAIL = 7); p = object + off,
+ * end = p + len, 0 <= off, len <= _DBUS_STRING_MAX_LENGTH (2^31 - 9; the 128 MiB message limit is far inside).  p starts at an
+ * arbitrary offset, so every alignment residue of p is covered (CBMC encodes a pointer as object-id . offset;
+ * _DBUS_ALIGN_ADDRESS therefore aligns the offset, i.e. the object base counts as 8-aligned, which is what malloc and the
+ * DBusString representation guarantee).
+ *   - READS: nothing at or after `end` is assumed readable, and none is read.  CBMC's object bounds alone cannot say that
+ *     (an object has one size), so it is stated separately: (i) every 4-byte read goes through _dbus_unpack_uint32, whose stub
+ *     requires data + 4 <= end; (ii) before each of the 10 byte-read sites (`*p`) of the function an injected ghost statement
+ *     sets verif_overread when p >= end; verif_overread == 0 is a loop invariant and a postcondition [post.noread]; (iii) the
+ *     string validators get [str, str + len) (signature: len + 1) below `end` as precondition.  CBMC's own pointer checks
+ *     additionally bound EVERY access (listed or not) by end + 7.
+ *   - POINTER FORMATION: the function forms and compares pointers up to end + 7 without reading them (`a` = p aligned up,
+ *     `a + 4`, `p + 4`, `p += alignment` followed by `p > end`).  With no byte after `end` in the object these comparisons are
+ *     undefined in ISO C and CBMC reports them ("pointer relation: pointer outside object bounds": 7 sites, measured with
+ *     VERIF_TAIL = 0).  7 tail bytes make them defined; the real caller passes a DBusString whose allocation is len + 8
+ *     (_DBUS_STRING_ALLOCATION_PADDING, align_offset 0), so this is the one place where that padding is load-bearing -- for
+ *     pointer arithmetic, not for reads.  Since fix f46b959 (array length must be a multiple of the element size) the bool-array
+ *     loop no longer reads up to 3 bytes past array_end (DESIGN section 8 item 7): [precondition of _dbus_unpack_uint32].
  *
  * Contract of validate_body_helper (pre: harness assumptions; post: asserts below; the same text as a stub in
  * verif_vbh_contract, which is what the recursive calls see):
- *   requires  p, end in one object, p <= end, [p, end) readable, end - p <= _DBUS_STRING_MAX_LENGTH,
+ *   requires  p, end in one object, p <= end, [p, end) readable, end - p <= _DBUS_STRING_MAX_LENGTH (offset of end <= 2^32),
  *             total_depth >= 0, new_p NULL or writable, reader a types-only reader (abstract state CUR_OK)
  *   ensures   VALID  ==>  new_p != NULL ==> p <= *new_p <= end (same object)        [post.range]
  *             !VALID ==>  *new_p not written                                          [post.newp-untouched]
  *             total_depth > 64 ==> result == DBUS_INVALID_NESTED_TOO_DEEPLY           [post.depth]
  *             VALID && walk_reader_to_end ==> reader is at its end                    [post.walked]
  *             !walk_reader_to_end ==> reader state unchanged                          [post.reader-frame]
+ *             reader state stays a type code or INVALID; a reader at its end stays there [post.reader-ok, post.end-stays]
+ *             no byte-read site reads at or after end                                 [post.noread]
  *             VALID && reader was at a type ==> *new_p > p  (progress: one value is at least one byte) [post.progress]
  *             VALID && reader was at its end ==> *new_p == p                          [post.noop]
  *   each recursive call: total_depth + 1, same byte order, same `end`, p inside [p0, end], new_p = &p (writable),
@@ -73,10 +85,7 @@ _Static_assert (__COUNTER__ == 0, "C01p: __COUNTER__ base moved; renumber verif_
 _Static_assert (__COUNTER__ == 6, "C01p: number of occurrences of validate_body_helper changed");
 
 /* ---- ghost state (declared in c01p_ghost.h, shared with stubs/c01p_stubs.c and the overlay) ---- */
-DBusTypeReader *verif_reader; int verif_cur_r, verif_elem_r, verif_cur_s, verif_elem_s;
-int verif_depth0, verif_bo0; long verif_p0_off, verif_end_off; const unsigned char *verif_base;
-int verif_site2, verif_site3, verif_site4;
-const DBusString *verif_cs; const unsigned char *verif_cs_ptr; int verif_cs_len; int verif_overread;
+struct verif_k_s verif_k; struct verif_g_s verif_g; int verif_overread;
 
 /* ---- the function's own contract, as seen by its recursive calls ---- */
 static DBusValidity verif_vbh_contract (int site, DBusTypeReader *reader, int byte_order, dbus_bool_t walk, int total_depth,
@@ -116,6 +125,9 @@ VERIF_VBH_PROTO(5) { __CPROVER_assert (0, "_dbus_validate_body_with_reason is ou
 #ifndef VERIF_MAXBODY
 #define VERIF_MAXBODY _DBUS_STRING_MAX_LENGTH
 #endif
+#ifndef VERIF_CASE_ID
+#define VERIF_CASE_ID 0   /* 0 = no case split (one monolithic unit); 1..4 = the class of tool/units/c01p.py */
+#endif
 #ifndef VERIF_TAIL
 #define VERIF_TAIL 7      /* bytes of the object after `end`: see the header comment */
 #endif
@@ -125,7 +137,8 @@ void harness (void)
   static DBusTypeReader rd;
   long len = nondet_long (), off = nondet_long ();
   int bo = nondet_int (), depth = nondet_int (); dbus_bool_t walk = nondet_bool ();
-  __CPROVER_assume (0 <= len && len <= VERIF_MAXBODY && 0 <= off && off <= VERIF_MAXBODY);
+  /* closed under the recursion: a recursive call keeps `end` and moves p forward, so the bound is on the offset of `end` */
+  __CPROVER_assume (0 <= len && len <= VERIF_MAXBODY && 0 <= off && off <= 2L * VERIF_MAXBODY && off + len <= 2L * VERIF_MAXBODY);
   __CPROVER_assume (depth >= 0);
   unsigned char *buf = malloc (off + len + VERIF_TAIL);
   __CPROVER_assume (buf != NULL);
@@ -146,20 +159,35 @@ void harness (void)
   __CPROVER_assert (IMP (depth > DBUS_MAXIMUM_TYPE_RECURSION_DEPTH * 2, v == DBUS_INVALID_NESTED_TOO_DEEPLY), "post.depth total_depth > 64 => DBUS_INVALID_NESTED_TOO_DEEPLY");
   __CPROVER_assert (IMP (v == DBUS_VALID && walk, verif_cur_r == DBUS_TYPE_INVALID), "post.walked VALID and walk_reader_to_end => reader at its end");
   __CPROVER_assert (IMP (!walk, verif_cur_r == cur0 && verif_elem_r == elem0), "post.reader-frame !walk_reader_to_end => reader unchanged");
+  __CPROVER_assert (VERIF_CUR_OK (verif_cur_r), "post.reader-ok the reader is still at a type code or at its end");
+  __CPROVER_assert (IMP (cur0 == DBUS_TYPE_INVALID, verif_cur_r == DBUS_TYPE_INVALID), "post.end-stays a reader at its end stays there");
   __CPROVER_assert (IMP (v == DBUS_VALID && new_p != NULL && cur0 != DBUS_TYPE_INVALID, OFF (np) > off), "post.progress VALID and reader at a type => at least one byte consumed");
   __CPROVER_assert (IMP (v == DBUS_VALID && new_p != NULL && cur0 == DBUS_TYPE_INVALID, OFF (np) == off), "post.noop VALID and reader at its end => nothing consumed");
   __CPROVER_assert (verif_overread == 0, "post.noread no byte-read site of validate_body_helper reads at or after end");
   __CPROVER_assert (IMP (verif_site2 || verif_site3 || verif_site4, depth <= DBUS_MAXIMUM_TYPE_RECURSION_DEPTH * 2), "post.norec no recursion beyond depth 64");
 
+  { int t = nondet_int (); __CPROVER_assert (IMP (VERIF_CUR_OK (t), VERIF_CLASSES_COVER (t)), "cases.cover the type-code classes of the C01.p.body.* units cover every type code"); }
+
   if (v == DBUS_VALID) REACH ("valid");
   if (v == DBUS_VALID && new_p != NULL && OFF (np) == off + len && len > 1000) REACH ("valid-consumed-long-body");
   if (v == DBUS_INVALID_NESTED_TOO_DEEPLY && depth > 64) REACH ("too-deep");
   if (v == DBUS_INVALID_NOT_ENOUGH_DATA) REACH ("not-enough-data");
-  if (v == DBUS_INVALID_ARRAY_LENGTH_INCORRECT) REACH ("array-length-incorrect");
+#if VERIF_CASE_ID == 0 || VERIF_CASE_ID == 1
   if (v == DBUS_INVALID_BOOLEAN_NOT_ZERO_OR_ONE) REACH ("bool-invalid");
+  if (v == DBUS_INVALID_ALIGNMENT_PADDING_NOT_NUL) REACH ("padding-not-nul");
+#endif
+#if VERIF_CASE_ID == 0 || VERIF_CASE_ID == 2
   if (v == DBUS_INVALID_STRING_MISSING_NUL) REACH ("string-missing-nul");
-  if (v == DBUS_INVALID_VARIANT_SIGNATURE_SPECIFIES_MULTIPLE_VALUES) REACH ("variant-multiple");
+  if (v == DBUS_INVALID_SIGNATURE_MISSING_NUL) REACH ("signature-missing-nul");
+#endif
+#if VERIF_CASE_ID == 0 || VERIF_CASE_ID == 3
+  if (v == DBUS_INVALID_ARRAY_LENGTH_INCORRECT) REACH ("array-length-incorrect");
+  if (v == DBUS_INVALID_BOOLEAN_NOT_ZERO_OR_ONE && verif_cur_r == DBUS_TYPE_ARRAY) REACH ("bool-array-invalid");
   if (verif_site2) REACH ("recursion-array-element");
+#endif
+#if VERIF_CASE_ID == 0 || VERIF_CASE_ID == 4
+  if (v == DBUS_INVALID_VARIANT_SIGNATURE_SPECIFIES_MULTIPLE_VALUES) REACH ("variant-multiple");
   if (verif_site3) REACH ("recursion-variant");
   if (verif_site4) REACH ("recursion-struct");
+#endif
 }
